@@ -83,6 +83,7 @@ theorem straight_fades_short (cs : List Cmd) (hw : WF cs) : FadesShort (encode c
       | pyro m => rw [af.1] at ha; exact absurd ha (by decide)
       | pyroSet m => rw [af.1] at ha; exact absurd ha (by decide)
       | nop => rw [af.1] at ha; exact absurd ha (by decide)
+      | trigger p a => rw [af.1] at ha; exact absurd ha (by decide)
       | waitUntil v => rw [af.1] at ha; exact absurd ha (by decide)
 
 theorem straight_not_instant (cs : List Cmd) (hw : WF cs) (t : Nat) (h0 : 0 < t) (hni : ∀ j, j ≤ cs.length → timeAt cs j ≠ t) :
@@ -154,6 +155,7 @@ theorem straight_line_running (cs : List Cmd) (hw : WF cs) (hist : List (Nat × 
     | pyro m => exact idle af.1 af.2.1
     | pyroSet m => exact idle af.1 af.2.1
     | nop => exact idle af.1 af.2.1
+    | trigger p a => exact idle af.1 af.2.1
     | waitUntil v => exact idle af.1 af.2.1
   · -- the program cannot have ended before the end of its last command
     exfalso
